@@ -3,6 +3,7 @@ package ziptrans
 import (
 	"archive/zip"
 	"encoding/binary"
+	"path"
 
 	"github.com/polydawn/go-timeless-api/rio"
 	"github.com/polydawn/rio/fs"
@@ -140,7 +141,10 @@ func zipFileOwnership(hdr *zip.FileHeader) (uint32, uint32, error) {
 func ZipHdrToMetadata(hdr *zip.FileHeader, fmeta *fs.Metadata) error {
 	finfo := hdr.FileInfo()
 
-	fmeta.Name = fs.MustRelPath(hdr.Name) // FIXME should not use the 'must' path
+	if path.IsAbs(path.Clean(hdr.Name)) {
+		return Errorf(rio.ErrWareCorrupt, "corrupt zip: absolute path %q is invalid", hdr.Name)
+	}
+	fmeta.Name = fs.MustRelPath(hdr.Name)
 	fmeta.Perms = osfs.OsToPerms(finfo.Mode())
 	fmeta.Type = osfs.OsToType(finfo.Mode())
 	if fmeta.Type == fs.Type_Invalid {
